@@ -163,7 +163,7 @@ class A64:
             if self.steps > 400000:
                 raise ExecError("budget", "instruction budget")
             if self.cur not in self.p.ins:
-                raise ExecError("unsupported", "execution left the text at %#x" % self.cur)
+                raise ExecError("unsupported", "execution left the text (%r)" % (self.cur,))
             mn, ops, text, base = self.p.ins[self.cur]
             r = self.step(mn, ops, base)
             if r == "ret":
@@ -271,8 +271,7 @@ class A64:
             ok = (k.c == 0) if k.is_const() else (k.lo == k.hi == 0) or (k.lo <= 0 <= k.hi and self._prove(L.z(k) == 0))
             if ok:
                 if not k.is_const():
-                    L.solver.add(z3.Implies(z3.And(*self.pc), L.z(k) == 0) if self.pc else L.z(k) == 0)
-                    L.lemmas.append("carry dropped at %#x proved zero" % self.cur)
+                    self._assume_zero(k, "carry dropped at %#x proved zero" % self.cur)
                 self.proved_carries += 1
             else:
                 self.lost_carries.append((self.cur, self.p.ins[self.cur][2]))
@@ -292,6 +291,11 @@ class A64:
 
     EAGER_MS = 5000
     EAGER_FAIL_S = 20.0
+
+    def _assume_zero(self, lv, label):
+        """records a fact that _prove established (under the current path condition, if any) so later queries get it for free"""
+        self.L.solver.add(z3.Implies(z3.And(*self.pc), self.L.z(lv) == 0) if self.pc else self.L.z(lv) == 0)
+        self.L.lemmas.append(label)
 
     def _set_flags(self, C, lost, fl):
         self._drop_C()
@@ -405,7 +409,7 @@ class A64:
         k = self.C_lost
         if self.C_unread and isinstance(k, LV) and k.t and k.lo <= 0 <= k.hi and self._prove(L1.z(k) == 0):
             # an unread carry that is provably zero here is replaced by its constant (it would be unprovable after the havoc)
-            L1.assume_zero(k, "unread carry at the cut %#x proved zero" % self.cur)
+            self._assume_zero(k, "unread carry at the cut %#x proved zero" % self.cur)
             self.proved_carries += 1
             c = L1.sub(self.C, k)
             self.C, self.C_lost, self.C_unread = (c if c.is_const() else L1.add(self.C, k)), L1.const(0), False
@@ -432,7 +436,7 @@ class A64:
         r, k = L.wrap(full, 64, what)
         if r.t and r.c % W == 0 and all(c % W == 0 for c in r.t.values()) and self._prove(L.z(r) == 0):
             # a word in [0,2^64) all of whose coefficients are multiples of 2^64 (Montgomery low word) is zero
-            L.assume_zero(r, "word at %#x is a multiple of 2^64 in [0,2^64): zero" % self.cur)
+            self._assume_zero(r, "word at %#x is a multiple of 2^64 in [0,2^64): zero" % self.cur)
             r = L.const(0)
         return r, k
 
@@ -456,7 +460,7 @@ class A64:
             r, k = self._wrap(full, "c")
             if cin is not None and k.t and (x.is_const() and x.c == 0 or y.is_const() and y.c == 0) and self._prove(L.z(k) == 0, 1500):
                 # 'adcs hi, hi, xzr': the carry into a high product word cannot overflow it; discharged eagerly
-                L.assume_zero(k, "carry out of 'adcs x, x, xzr' at %#x proved zero" % self.cur)
+                self._assume_zero(k, "carry out of 'adcs x, x, xzr' at %#x proved zero" % self.cur)
                 self.proved_carries += 1
                 k = L.const(0)
             C = lost = k
